@@ -1424,7 +1424,7 @@ int fb_init_parser(fb_parser_t *P, fb_options_t *opts, const char *name,
         name = "";
     }
     name_len = strlen(name);
-    checkmem((P->schema.basename = fb_create_basename(name, name_len, opts->default_schema_ext)));
+    checkmem((P->schema.basename = fb_create_basename(name, name_len, P->opts.default_schema_ext)));
     n = strlen(P->schema.basename);
     checkmem(s = fb_copy_path_n(P->schema.basename, n));
     pstrntoupper(s, n);
@@ -1434,9 +1434,10 @@ int fb_init_parser(fb_parser_t *P, fb_options_t *opts, const char *name,
     checkmem((P->schema.errorname = fb_create_basename(name, name_len, "")));
     P->schema.prefix.s = "";
     P->schema.prefix.len = 0;
-    if (opts->ns) {
-        P->schema.prefix.s = (char *)opts->ns;
-        P->schema.prefix.len = (int)strlen(opts->ns);
+    /* `opts` may be null (defaults were installed above). */
+    if (P->opts.ns) {
+        P->schema.prefix.s = (char *)P->opts.ns;
+        P->schema.prefix.len = (int)strlen(P->opts.ns);
     }
     P->root_scope = fb_add_scope(P, 0);
     P->current_scope = P->root_scope;
